@@ -25,6 +25,8 @@ def gen(rng, n_cases, algos=None, gens=(2, 5)):
         if algo == "gde3p" or metric == "pcd":
             n_obj = 1 if algo == "de" else 2    # compiled pcd with >= 3 objectives only in isolated workers
         n_ieq = int(rng.choice([0, 1, 1, 2]))
+        # equality constraints too, incl. problems constrained *only* by equalities (n_ieq_constr == 0)
+        n_eq = int(rng.choice([0, 0, 0, 1, 2]))
         from core import gen_bounds
         xl, xu = gen_bounds(rng, n_var)
         xu = np.where(xu - xl < 1e-6, xl + 1.0, xu)     # runs need room to move; degenerate ranges are C01's business
@@ -33,7 +35,9 @@ def gen(rng, n_cases, algos=None, gens=(2, 5)):
                "gamma": [None, 1e-4, 1.0][rng.randint(3)], "repair": comp_surv_repairs()[rng.randint(4)],
                "pop_size": pop_size, "n_off": None if rng.randint(3) else int(rng.randint(2, pop_size + 4)),
                "metric": metric, "surv_cls": ["rnc", "constr", "default"][rng.randint(3)],
-               "n_var": n_var, "n_obj": n_obj, "n_ieq": n_ieq, "xl": xl, "xu": xu,
+               "n_var": n_var, "n_obj": n_obj, "n_ieq": n_ieq, "n_eq": n_eq, "xl": xl, "xu": xu,
+               # history: one generation advanced by tell(infills) with user-made infills and no ask() before it
+               "tell_only": int(rng.randint(2, 5)) if rng.randint(4) == 0 else 0,
                "pseed": int(rng.randint(1000)), "grid": [None, None, 0.25, 0.1][rng.randint(4)],
                "shift": float(rng.choice([-1.0, -0.3, 0.0, 0.0, 0.5, 3.0])),
                "pm": bool(rng.randint(5) == 0), "n_gen": int(rng.randint(gens[0], gens[1] + 1)),
@@ -54,7 +58,7 @@ def case_from_record(rec):
 
 def make_problem(c):
     from problems import GenProblem
-    return GenProblem(c["n_var"], c["n_obj"], c["n_ieq"], 0, xl=np.array(c["xl"], dtype=float), xu=np.array(c["xu"], dtype=float),
+    return GenProblem(c["n_var"], c["n_obj"], c["n_ieq"], c.get("n_eq", 0), xl=np.array(c["xl"], dtype=float), xu=np.array(c["xu"], dtype=float),
                       seed=c["pseed"], grid=c["grid"], shift=c["shift"])
 
 
@@ -128,7 +132,9 @@ def snapshot(pop, book):
     F = np.array(pop.get("F"), dtype=float).reshape(n, -1)
     G = pop.get("G")
     G = np.zeros((n, 0)) if G is None or len(np.shape(G)) < 2 else np.array(G, dtype=float).reshape(n, -1)
-    return {"ids": np.array(book.many(pop), dtype=int), "X": np.array(pop.get("X"), dtype=float).reshape(n, -1), "F": F, "G": G,
+    H = pop.get("H")
+    H = np.zeros((n, 0)) if H is None or len(np.shape(H)) < 2 else np.array(H, dtype=float).reshape(n, -1)
+    return {"ids": np.array(book.many(pop), dtype=int), "X": np.array(pop.get("X"), dtype=float).reshape(n, -1), "F": F, "G": G, "H": H,
             "CV": np.array(pop.get("CV"), dtype=float).reshape(n), "feas": np.array(pop.get("feasible"), dtype=bool).reshape(n),
             "rank": np.array([-1 if r is None else int(r) for r in pop.get("rank")], dtype=int)}
 
@@ -150,7 +156,7 @@ def run(case, replay=None):
         if c["prior"]:
             # preceding workload in the same process: another algorithm built from the same shared
             # defaults, on another problem, advanced a little (no deepcopy in between)
-            c2 = dict(c, n_ieq=0 if c["n_ieq"] else 1, pseed=c["pseed"] + 7, seed=c["seed"] + 1, prior=False)
+            c2 = dict(c, n_ieq=0 if c["n_ieq"] else 1, n_eq=0 if c.get("n_eq") else 1, tell_only=0, pseed=c["pseed"] + 7, seed=c["seed"] + 1, prior=False)
             p2 = make_problem(c2)
             import contextlib, io
             with contextlib.redirect_stdout(io.StringIO()):
@@ -202,7 +208,19 @@ def run(case, replay=None):
             for lst in (orc.splits, orc.nds, orc.crowd, orc.sorts):
                 del lst[:]
             handed.clear()
-            infills = algo.ask()
+            tell_only = bool(c.get("tell_only")) and g + 1 == c["tell_only"] and pop_before is not None and len(pop_before) \
+                and c["algo"] not in ("ga", "ea-dex")
+            if tell_only:
+                # user-made infills (the documented ask-and-tell freedom): fresh individuals, one per slot
+                from pymoo.core.population import Population
+                rs = np.random.RandomState(c["seed"] % 100000 + g)
+                Xp = np.array(pop_before.get("X"), dtype=float)
+                xl_, xu_ = np.array(c["xl"], dtype=float), np.array(c["xu"], dtype=float)
+                Xn = np.clip(Xp[rs.permutation(len(Xp))] + rs.uniform(-0.2, 0.2, size=Xp.shape) * (xu_ - xl_), xl_, xu_)
+                Xn[::3] = Xp[::3]          # some trials equal to their targets (exact ties)
+                infills = Population.new("X", Xn)
+            else:
+                infills = algo.ask()
             n_asked = len(infills)
             x_asked = np.array(infills.get("X"), dtype=float, copy=True)
             algo.evaluator.eval(prob, infills)
@@ -216,13 +234,18 @@ def run(case, replay=None):
                 if c["algo"] in ("ga", "ea-dex"):
                     continue        # the generic base class does not rank its first population (pymoo's business)
                 before = {"ids": np.zeros(0, dtype=int), "X": np.zeros((0, off["X"].shape[1])), "F": np.zeros((0, off["F"].shape[1])),
-                          "G": np.zeros((0, off["G"].shape[1])), "CV": np.zeros(0), "feas": np.zeros(0, dtype=bool),
+                          "G": np.zeros((0, off["G"].shape[1])), "H": np.zeros((0, off["H"].shape[1])), "CV": np.zeros(0), "feas": np.zeros(0, dtype=bool),
                           "rank": np.zeros(0, dtype=int)}
             if only_g is not None and g != only_g:
                 continue
             after = snapshot(algo.pop, book)
             rec = Record(NAME, dict(c, g=g), {"pop": before, "off": off})
             rec.cfg["init"] = bool(is_init)
+            rec.cfg["told_only"] = bool(tell_only)
+            if tell_only:
+                rec.tags.add("tell-without-ask")
+            if prob.n_eq_constr and not prob.n_ieq_constr:
+                rec.tags.add("equality-only")
             rec.cfg["constr"] = bool(prob.has_constraints())
             rec.cfg["is_rnc"] = bool(is_rnc)
             rec.out["after"] = after
@@ -236,6 +259,10 @@ def run(case, replay=None):
             # provenance: stored F/G are those of the problem at the stored X
             ev = prob.evaluate(after["X"], return_values_of=["F", "G"] if prob.n_ieq_constr else ["F"])
             Fe = ev[0] if isinstance(ev, (tuple, list)) else ev
+            if prob.n_eq_constr:
+                He = prob.evaluate(after["X"], return_values_of=["H"])
+                if not bits_equal(np.asarray(He, dtype=float).reshape(after["H"].shape), after["H"]):
+                    rec.frames.append("stored H of a population member differs from the problem evaluated at its stored X")
             if not bits_equal(np.asarray(Fe, dtype=float).reshape(after["F"].shape), after["F"]):
                 rec.frames.append("stored F of a population member differs from the problem evaluated at its stored X")
             if prob.n_ieq_constr:
@@ -300,7 +327,7 @@ def encode(rec):
                              "n_survive": h.get("n_survive"), "constr": c["constr"],
                              "metric": {"gde3mnn": "mnn", "gde32nn": "2nn", "gde3p": "pcd"}.get(c["algo"], "cd" if (c["surv_cls"] == "default" and c["algo"] in ("nsde", "gde3")) else c["metric"]),
                              "compiled": True},
-                    {"F": snap["F"], "G": snap["G"], "H": np.zeros((len(snap["F"]), 0)), "CV": snap["CV"], "feas": snap["feas"]})
+                    {"F": snap["F"], "G": snap["G"], "H": snap["H"], "CV": snap["CV"], "feas": snap["feas"]})
         r2.out["oracles"] = rec.out["oracles"]
         t += ["SURV"] + comp_surv.encode(r2).split()[1:]
     return " ".join(t)
